@@ -18,6 +18,7 @@ from c19_common import Tally, fork_map, int_array
 
 N = 3
 MASKS = [(1, 0, 1), (0, 1, 1), (1, 0, 1, 1)]          # the last one has the wrong length
+MASKS.append((1, 1, 0))                                 # index 3: used for masked-reference creation and live-handle sources only (a[011] = a[110] is the aliasing hazard)
 SLICES = [slice(None), slice(None, None, 2), slice(None, None, -1)]
 SLN = ["[:]", "[::2]", "[::-1]"]
 OPF = {"+=": operator.iadd, "-=": operator.isub, "*=": operator.imul, "/=": operator.itruediv}
@@ -123,10 +124,11 @@ def ops_from(cfg, st):
         out.append(("seta", h, 0, 1))
         if kind == "A":
             for mk in range(len(MASKS)):
-                if len(MASKS[mk]) == N:
-                    for s in "sfcw": out.append(("mset", h, mk, s))
-                else:
-                    out.append(("mset", h, mk, "s"))
+                if mk < 3:
+                    if len(MASKS[mk]) == N:
+                        for s in "sfcw": out.append(("mset", h, mk, s))
+                    else:
+                        out.append(("mset", h, mk, "s"))
                 if len(st.H) < MAXH: out.append(("view", h, mk))
         elif ln != N and ln > 1:
             out.append(("vmset", h))
@@ -138,7 +140,25 @@ def ops_from(cfg, st):
         for o, r in cfg.iops:
             if r == "f" and kind != "M": continue
             out.append(("iop", h, o, r))
+        # sources that are LIVE HANDLES of the same storage (the array, an alias, a masked reference): a Python list reads
+        # the whole right-hand side before it stores
+        for h2, (k2, idx2, w2, det2) in enumerate(st.H):
+            if k2 == "E": continue
+            for sk in (0, 2): out.append(("setah", h, sk, h2))
+            if kind == "A":
+                for mk in range(len(MASKS)): out.append(("mseth", h, mk, h2))
+            if kind == "M" and ln != N and len(idx2) == N: hz = hazard(idx, [idx2[j] for j in idx])    # rhs of the unmasked length: element q pairs with rhs[idx[q]]
+            else: hz = len(idx2) == ln and hazard(idx, idx2)
+            if not hz:
+                for o in ("+=", "-="): out.append(("ioph", h, o, h2))
     return out
+
+
+def hazard(idx, idx2):
+    """x op= y walks the elements in an unspecified order (possibly in parallel); the result is defined whenever no element
+    is read from a position that the operation also writes at a different step."""
+    dst = set(idx)
+    return any(b != a and b in dst for a, b in zip(idx, idx2))
 
 
 def model_apply(cfg, st, op):
@@ -188,6 +208,32 @@ def model_apply(cfg, st, op):
         return True, ns
     if t == "ro":
         ns.H[op[1]] = (kind, idx, False, det); return True, ns
+    if t == "setah":
+        idx2 = st.H[op[3]][1]
+        tgt = [idx[q] for q in range(*SLICES[op[2]].indices(ln))]
+        if not w or len(idx2) != len(tgt): return False, st
+        vals = [S[j] for j in idx2]
+        for j, v in zip(tgt, vals): S[j] = v
+        return True, ns
+    if t == "mseth":
+        m = MASKS[op[2]]; idx2 = st.H[op[3]][1]
+        sel = [q for q in range(ln) if m[q]]
+        if len(m) != ln or not w or len(idx2) not in (ln, len(sel)): return False, st
+        vals = [S[j] for j in idx2]
+        for j, q in enumerate(sel): S[idx[q]] = vals[q] if len(idx2) == ln else vals[j]
+        return True, ns
+    if t == "ioph":
+        idx2 = st.H[op[3]][1]
+        vals = [S[j] for j in idx2]
+        if w and kind == "M" and ln != N and len(idx2) == N:
+            # a masked reference also accepts a right-hand side of its UNMASKED length (existing op "array(unmasked len)"):
+            # element q combines with rhs[idx[q]]
+            if any(idx2[idx[q]] != idx[q] and idx2[idx[q]] in idx for q in range(ln)): raise AssertionError("hazard not filtered")
+            for q in range(ln): S[idx[q]] = cfg.ap(op[2], S[idx[q]], vals[idx[q]])
+            return True, ns
+        if not w or len(idx2) != ln: return False, st
+        for q in range(ln): S[idx[q]] = cfg.ap(op[2], S[idx[q]], vals[q])
+        return True, ns
     if t == "iop":
         o, r = op[2], op[3]
         if r == "w" or not w: return False, st
@@ -216,6 +262,9 @@ def real_apply(cfg, real, st, op):
             elif op[3] == "c": v = build(cfg, [cfg.src(j) for j in range(cnt)])
             else: v = build(cfg, [cfg.src(j) for j in range(ln + 1)])
             x[int_array(m)] = v
+        elif t == "setah": x[SLICES[op[2]]] = real[op[3]]
+        elif t == "mseth": x[int_array(MASKS[op[2]])] = real[op[3]]
+        elif t == "ioph": real[h] = OPF[op[2]](x, real[op[3]])
         elif t == "vmset": x[int_array([1] + [0] * (ln - 1))] = cfg.mk(cfg.store)
         elif t == "view": real.append(x[int_array(MASKS[op[2]])])
         elif t == "copy": real.append(type(x)(x))
@@ -262,6 +311,9 @@ def opname(st, op):
     if t == "sets": return "%s%s=elem" % (hs, SLN[op[2]])
     if t == "seta": return "%s%s=array(len sel%+d)" % (hs, SLN[op[2]], op[3])
     if t == "mset": return "%s[mask %s]=%s" % (hs, "".join(map(str, MASKS[op[2]])), {"s": "elem", "f": "array(full)", "c": "array(compressed)", "w": "array(wrong len)"}[op[3]])
+    if t == "setah": return "%s%s=h%d" % (hs, SLN[op[2]], op[3])
+    if t == "mseth": return "%s[mask %s]=h%d" % (hs, "".join(map(str, MASKS[op[2]])), op[3])
+    if t == "ioph": return "%s %s h%d" % (hs, op[2], op[3])
     if t == "vmset": return "%s[mask 10..]=elem" % hs
     if t == "view": return "new=%s[mask %s]" % (hs, "".join(map(str, MASKS[op[2]])))
     if t == "copy": return "new=Array(%s)" % hs
@@ -272,7 +324,7 @@ def opname(st, op):
     return repr(op)
 
 
-OPKIND = {"set": "setitem", "sets": "setitem", "seta": "setitem", "mset": "masked-store", "vmset": "masked-store-through-masked-reference",
+OPKIND = {"setah": "setitem-from-live-handle", "mseth": "masked-store-from-live-handle", "ioph": "inplace-op-from-live-handle", "set": "setitem", "sets": "setitem", "seta": "setitem", "mset": "masked-store", "vmset": "masked-store-through-masked-reference",
           "view": "masked-reference-creation", "copy": "copy-construction", "elem": "element-reference-creation",
           "eset": "element-write", "ro": "makeReadOnly", "iop": "inplace-op"}
 
@@ -409,7 +461,7 @@ def run(R, thorough):
     maxd = max(d for _, d in plan)
     for k in OPKIND.values():
         R.declare("hist.%s.expected-success" % k)
-        if k in ("setitem", "masked-store", "inplace-op"):
+        if k in ("setitem", "masked-store", "inplace-op", "setitem-from-live-handle", "masked-store-from-live-handle", "inplace-op-from-live-handle"):
             R.declare("hist.%s.expected-rejection" % k, "hist.%s.through-read-only" % k)
         if k == "masked-reference-creation": R.declare("hist.%s.expected-rejection" % k)
         if k == "masked-store-through-masked-reference" and maxd >= 3: R.declare("hist.%s.through-read-only" % k)
